@@ -365,7 +365,7 @@ CONTRACTS += [
          'positions_kept': 'implies(DISTINCT_LABELS(data[0]), forall(data[0], lambda p: same(result[1]["bits"][p[0]], p[1])))',
          'nothing_else': 'forall(result[1]["bits"], lambda k, v: exists(data[0], lambda p: p[0] == k and same(p[1], v)))'},
         ['C05'],
-        requires=['forall(data[0], lambda p: is_tuple(p) and len(p) == 2 and is_str(p[0]) and is_num(p[1]))'],
+        requires=['forall(data[0], lambda p: is_tuple(p) and len(p) == 2 and is_str(p[0]))'],
         loops={1: {'invariant': [
             'forall(lambda j: implies(0 <= j and j < _i, data[0][j][0] in outDict["bits"]))',
             'forall(outDict["bits"], lambda k, v: exists(data[0], lambda p: p[0] == k and same(p[1], v)))',
@@ -539,10 +539,101 @@ CONTRACTS += [
         ensures={
             'base_type_of_the_chain': 'implies(not raised, same(result[0], BASE(self.symbolTable, symName, module)))',
             'enumeration_own_then_base': 'implies(not raised, same(result[1], BASESUB(self.symbolTable, symName, module)))',
+            'base_type_is_a_name_module_pair': 'implies(not raised, is_tuple(result[0]) and len(result[0]) == 2 and '
+                                               'is_str(result[0][0]) and is_str(result[0][1]))',
             'unknown_module_or_symbol_is_an_error': 'implies(module not in self.symbolTable or '
                                                     'symName not in self.symbolTable[module], raised)',
             'table_unchanged': 'same(self.symbolTable, old(self.symbolTable))',
         },
         raises={'PySmiSemanticError': True},
     ),
+]
+
+
+# ---------------------------------------------------------------- DEFVAL (C05)
+def defval_setup(kind):
+    def setup(it, env):
+        ctx = it.ctx
+        if kind == 'number':
+            v = it.fresh_int('defval')
+        elif kind in ('hex', 'bin'):
+            from contracts.codegen_base import lit_setup
+            lit_setup(kind)(it, env)
+            v = env.lookup('s')
+        elif kind == 'string':
+            body = it.fresh_str('text')
+            ctx.assume(z3.Not(z3.Contains(body.t, z3.StringVal('"'))))
+            env.set('text', body)
+            st = z3.Concat(z3.StringVal('"'), body.t, z3.StringVal('"'))
+            v = pv.SStr(st)
+            ctx.assume(z3.Length(st) == z3.Length(body.t) + 2)
+            ctx.assume(z3.SubString(st, 1, z3.Length(st) + (-1) - 1) == body.t)
+        elif kind == 'label':
+            v = it.fresh_str('label')
+            # LOWERCASE_IDENTIFIER: starts with a digit or a lower-case letter, never a quote
+            ctx.assume(z3.InRe(v.t, z3.Concat(z3.Star(z3.Range('0', '9')), z3.Range('a', 'z'),
+                                              z3.Star(z3.Union(z3.Range('a', 'z'), z3.Range('A', 'z'), z3.Range('0', '9'),
+                                                               z3.Re('-'))))))
+        env.set('defval', v)
+        env.set('data', pv.VList([v]))
+    return setup
+
+
+DV_REQ = ST_SYNTAX_WF + ST_WF[1:]
+BT = 'BASE(self.symbolTable, objname, self.moduleName[0])[0]'
+ISINT = '(%s == "Integer32" or %s == "Integer")' % (BT, BT)
+DV_OK = 'not raised and "default" in result and same(result["default"]["basetype"], %s)' % BT
+
+
+def defval_contract(kind, ensures, requires=()):
+    ens = {k: (v if 'raised' in v else 'implies(not raised, %s)' % v) for k, v in ensures.items()}
+    return Contract(id='intermediate.genDefVal', file=FILE, func='IntermediateCodeGen.genDefVal', serves=['C05'],
+                    params={'self': SELF, 'data': NoneT, 'objname': Str},
+                    requires=DV_REQ + ['len(objname) > 0'] + list(requires), defs=LITDEFS,
+                    setup=defval_setup(kind), ensures=ens, returns=Any,
+                    loops={1: {'invariant': ['is_list(defvalBits)', 'forall(seq(defvalBits), lambda p: is_tuple(p) and '
+                                             'len(p) == 2 and is_str(p[0]))']}},
+                    inline=['IntermediateCodeGen.transOpers'],
+                    raises={'PySmiSemanticError': True}).variant(kind)
+
+
+CONTRACTS += [
+    defval_contract('number', {
+        'decimal_as_written': 'implies(not raised, %s and same(result["default"]["value"], defval) and '
+                              'result["default"]["format"] == "decimal")' % DV_OK.replace('not raised and ', '')}),
+    defval_contract('hex', {
+        'same_integer_for_integer_types': 'implies(not raised and %s, same(result["default"]["value"], '
+                                          'str(ite(len(body) > 0, py_int_base(body, 16), py_int_base("0", 16)))) and '
+                                          'result["default"]["format"] == "hex")' % ISINT,
+        'digits_for_other_types': 'implies(not raised and not %s, same(result["default"]["value"], body) and '
+                                  'result["default"]["format"] == "hex")' % ISINT,
+        'basetype_recorded': 'implies(not raised, same(result["default"]["basetype"], %s))' % BT}),
+    defval_contract('bin', {
+        'same_integer_for_integer_types': 'implies(not raised and %s, same(result["default"]["value"], '
+                                          'str(ite(len(body) > 0, py_int_base(body, 2), py_int_base("0", 2)))) and '
+                                          'result["default"]["format"] == "bin")' % ISINT,
+        'hex_digits_for_other_types': 'implies(not raised and not %s, result["default"]["format"] == "hex")' % ISINT,
+        'basetype_recorded': 'implies(not raised, same(result["default"]["basetype"], %s))' % BT}),
+    defval_contract('string', {
+        # the text between the quotes; an empty default makes sense for OCTET STRING types only
+        'text_between_the_quotes': 'implies(not raised and (len(text) > 0 or %s == "OctetString"), "default" in result and '
+                                   'same(result["default"]["value"], text) and result["default"]["format"] == "string")' % BT,
+        'empty_default_dropped_for_other_types': 'implies(not raised and len(text) == 0 and %s != "OctetString", '
+                                                 'not truthy(result))' % BT}),
+]
+
+SUBS = 'BASESUB(self.symbolTable, objname, self.moduleName[0])'
+CONTRACTS += [
+    defval_contract('label', {
+        # a label of the enumeration resolved through the type chain (imported types included)
+        'enumeration_label': 'implies(not raised and %s != "ObjectIdentifier" and %s and is_list(%s) and defval in dict(%s), '
+                             '"default" in result and result["default"]["format"] == "enum" and '
+                             'same(result["default"]["value"], defval))' % (BT, ISINT, SUBS, SUBS),
+        # an OID label: the resolved OID of that symbol in its defining module
+        'oid_label': 'implies(not raised and %s == "ObjectIdentifier" and (defval in self.symbolTable[self.moduleName[0]] or '
+                     'defval in self._importMap), "default" in result and result["default"]["format"] == "oid")' % BT,
+        'basetype_recorded': 'implies(not raised and "default" in result, same(result["default"]["basetype"], %s))' % BT,
+    }, requires=['self.moduleName[0] in self.symbolTable',
+                 # symbol tables give BITS types the list of their named bits (symtable.genBits)
+                 'implies(%s == "Bits", is_list(%s))' % (BT, SUBS)]),
 ]
